@@ -11,7 +11,7 @@ from vlib import caseio, gen, runner
 
 ID = "C17"
 COQ_PREFIXES = ["C17", "C19"]       # C17_Model imports C19_Model (dir_mean), C17_Proofs imports C19_ROps
-COQ_TARGETS = ["C17_Extract.vo", "C17_Proofs.vo"]
+COQ_TARGETS = ["C17_Extract.vo", "C17_Proofs.vo", "C17_Regress.vo"]
 EXTRACTED = "C17_model"
 DRIVER = "drv_C17.ml"
 HARNESS = "h_C17.cpp"
@@ -21,12 +21,15 @@ REQUIRED_THEOREMS = [
     "C17_hist_inv", "C17_est_hist_inv", "C17_shrink_keeps_recent", "C17_window_clamped", "C17_add_pushes_front",
     "C17_clear_empties", "C17_mean_linear", "C17_mean_circular", "C17_mode_is_max", "C17_map_is_argmax",
     "C17_map_score_meaning", "C17_window_weights", "C17_cache_coherent", "C17_windowed_is_convex_combination",
-    "C17_history_is_recent_calls", "C17_stored_fixed_window", "C17_map_without_args_unavailable",
+    "C17_history_is_recent_calls", "C17_stored_count", "C17_stored_fixed_window", "C17_map_without_args_unavailable",
+    "C17_extract_value", "C17_set_window_spec", "C17_windowed_extract_end_to_end", "C17_min_calls_window_refuted",
 ]
 RULE = ("operation sequences on one object; kind est: ops from {extract/2, extract/5, setMethod(12 methods), "
         "setMobileAverageWindowSize(w in {-1,0,1,2,3,5,29,30,31,100} and 2..8), clear}, particle sets N in 1..20 with "
         "linear 0..3 + circular 0..2 rows, normalised log-weights with a unique maximum, likelihoods / transition "
         "matrices (zeros included) with a unique best map score; kind hb: ops from {add, set(w), dec, inc, clear}; "
+        "both tiers start with a hand-picked corpus (inputs of past failures, saturation, unsigned wrap, shared history) and end "
+        "with exact-tie cases for plain mode/map (compared relationally); "
         "quick: random sequences of length <= 12 (+ a few long fills), thorough: additionally exhaustive sequences of "
         "length <= 3 after prefills {0,1,3,6,31} and random sequences of length <= 60; non-trivial = a sequence with a "
         "windowed extract or a window change on a non-empty buffer; distinct by (kind, lin, circ, methods used, "
@@ -90,12 +93,17 @@ def circ_diff(a, b):
     return (a - b + math.pi) % TWO_PI - math.pi
 
 
+NEAR_BOUNDARY_SKIPPED = 0
+
+
 def vec_close(a, b, lin, res, scale, tol=1e-10):
     """Linear rows absolutely (scaled), circular rows modulo 2 pi with a tolerance inversely proportional to the
-    resultant length.  Returns (ok, skipped_near_boundary, worst)."""
+    resultant length (rows whose resultant is shorter than 1e-6 are skipped and counted).
+    Returns (True | "linear" | "circular" = first failing kind of row, skipped_near_boundary, worst)."""
     a, b = np.asarray(a, float).reshape(-1), np.asarray(b, float).reshape(-1)
     if a.shape != b.shape:
-        return False, 0, math.inf
+        return "linear", 0, math.inf
+    global NEAR_BOUNDARY_SKIPPED
     worst, skipped, ok = 0.0, 0, True
     for r in range(a.size):
         if r < lin:
@@ -103,10 +111,10 @@ def vec_close(a, b, lin, res, scale, tol=1e-10):
         else:
             R = res[r - lin]
             if R < 1e-6:
-                skipped += 1; continue
+                skipped += 1; NEAR_BOUNDARY_SKIPPED += 1; continue
             d = abs(circ_diff(a[r], b[r])); t = tol * max(1.0, 1.0 / R)
         if not (d <= t):
-            ok = False
+            ok = ("linear" if r < lin else "circular") if ok is True else ok
         worst = max(worst, d)
     return ok, skipped, worst
 
@@ -189,6 +197,29 @@ def hb_case(rng, cid, d, tokens, tag):
     return c
 
 
+def tie_case(rng, cid):
+    """Exact ties in the weights / map scores, plain mode and map only: the returned particle is compared
+    relationally (any maximiser is accepted), never by index."""
+    lin, circ = rng.randint(1, 3), rng.randint(0, 2)
+    n = rng.choice([2, 3, 4, 5, 8, 9, 16, 17, 20])
+    c = caseio.Case(cid, "est", {"lin": lin, "circ": circ, "tag": "tie", "nops": 4})
+    c.word("ops", ["m:mode", "e2", "m:map", "e5"])
+    eg = EstGen(rng, lin, circ)
+    P = eg.particles(n)
+    w = np.full(n, 0.25)
+    for j in rng.sample(range(n), rng.randint(2, min(n, 4))):
+        w[j] = 1.0
+    W = np.log(w / w.sum())
+    L = np.ones(n)
+    for j in rng.sample(range(n), rng.randint(2, min(n, 4))):
+        L[j] = 2.0
+    for k in (1, 3):
+        c.mat_shape("P%d" % k, lin + circ, n, P); c.mat_shape("W%d" % k, n, 1, W)
+    c.mat_shape("PW3", n, 1, np.log(np.full(n, 1.0 / n))); c.mat_shape("L3", n, 1, L)
+    c.mat_shape("T3", n, n, np.full((n, n), 0.25))
+    return c
+
+
 def rand_window(rng):
     return rng.choice(WINDOWS) if rng.random() < 0.6 else rng.randint(2, 8)
 
@@ -241,6 +272,35 @@ def shapes(rng):
     return rng.randint(0, 3), rng.randint(0, 2)
 
 
+def corpus(rng, add, cid0):
+    """Hand-picked boundary sequences and the inputs of past failures; run first in both tiers."""
+    k = cid0
+    hb = [
+        ["a", "a", "a", "s:2"],                                   # F-hist-shrink probe: 3 stored, window 5 -> 2 keeps 2
+        ["a", "s:100", "s:2"],                                    # gap larger than what is stored (popped an empty deque)
+        ["s:30"] + ["a"] * 31 + ["s:29", "s:30", "s:31", "s:100", "s:1", "s:0", "s:-1"],
+        ["s:2", "d", "d", "a", "a", "a", "i", "a"],               # decrease saturates at 2
+        ["s:30", "i", "i"] + ["a"] * 32 + ["d"],                  # increase saturates at 30
+        ["s:4294967295", "s:4294967296", "s:5"],                  # unsigned wrap of the harness cast: 2^32 -> 0 -> clamp 2
+        ["c", "a", "c", "c", "a", "a"],
+        ["s:5", "a", "s:5", "a"],                                 # early return on an equal request
+    ]
+    for toks in hb:
+        add(hb_case(rng, k, 2, toks, "corpus")); k += 1
+    est = [
+        (1, 0, ["m:smode", "e2", "e2", "e2", "w:2", "w:5", "e2"]),           # witness of C17_min_calls_window_refuted
+        (2, 1, ["m:smean", "e2", "e2", "e2", "w:2", "e2", "w:30", "e2"]),    # weights recomputed for every length
+        (1, 1, ["m:wmean"] + ["e2"] * 7 + ["w:3"] + ["e2"] * 2 + ["c", "e2", "e2"]),
+        (0, 2, ["m:emean", "e5", "e5", "e5", "m:smean", "e5", "m:wmode", "e5", "m:emap", "e5", "e2"]),   # shared history across methods
+        (3, 0, ["m:map", "e2", "e5", "m:smap", "e2", "e5", "m:wmap", "e2", "e5", "m:emap", "e2", "e5"]),  # map variants with / without arguments
+        (1, 2, ["w:0", "w:-1", "w:1", "e5", "e5", "e5", "w:31", "w:30", "w:100"]),
+        (2, 2, ["m:mean", "e2", "m:mode", "e5", "m:smean", "e2", "m:mean", "e5", "m:smean", "e2"]),      # plain methods do not touch the history
+        (0, 0, ["m:smean", "e2", "e5", "w:2", "e2"]),                         # empty state vector
+    ]
+    for lin, circ, toks in est:
+        add(est_case(rng, k, lin, circ, toks, "corpus")); k += 1
+
+
 def generate(rng, tier):
     cases, cid = [], 0
 
@@ -249,6 +309,7 @@ def generate(rng, tier):
         cases.append(c); cid += 1
 
     windowed = [m for m in METHODS if VAR[m]]
+    corpus(rng, add, 0)
     if tier == "quick":
         for _ in range(330):
             lin, circ = shapes(rng)
@@ -261,7 +322,11 @@ def generate(rng, tier):
         for _ in range(10):
             k = rng.randint(0, 34)
             add(hb_case(rng, cid, rng.randint(1, 3), ["s:%d" % rng.choice([29, 30, 31, 100])] + ["a"] * k + ["s:%d" % rng.choice(WINDOWS), "a", "i", "d", "d"], "fill"))
+        for _ in range(20):
+            add(tie_case(rng, cid))
         return cases
+    for _ in range(300):
+        add(tie_case(rng, cid))
     # thorough: exhaustive short sequences after a prefill, then random long ones
     hb_alpha = ["a", "d", "i", "c"] + ["s:%d" % w for w in WINDOWS]
     for pre in (0, 1, 3, 6, 31):
@@ -306,16 +371,17 @@ def colvec(c, name):
 
 
 def features(c):
-    """(methods used for extracts, window values set, shrunk while non-empty, max stored) by the spec machine."""
+    """(methods used for extracts, window values set, shrunk while non-empty, max stored, a pushing call happened,
+    stored != min(pushing calls since the last clear, window) at some point) by the spec machine."""
     toks = ops_of(c)
-    win, stored, meth = 5, 0, "emode"
-    used, wins, shrunk, mx, windowed_call = set(), set(), False, 0, False
+    win, stored, meth, calls = 5, 0, "emode", 0
+    used, wins, shrunk, mx, windowed_call, count_differs = set(), set(), False, 0, False, False
     for o in toks:
         if c.kind == "est":
             if o in ("e2", "e5"):
                 used.add(meth + "/" + o[1])
                 if VAR[meth] and not (o == "e2" and STAT[meth] == "map"):
-                    stored = min(stored + 1, win); windowed_call = True
+                    stored = min(stored + 1, win); windowed_call = True; calls += 1
             elif o.startswith("m:"):
                 meth = o[2:]
             elif o.startswith("w:"):
@@ -326,10 +392,10 @@ def features(c):
                         shrunk = True
                     stored, win = min(stored, nw), nw
             elif o == "c":
-                stored = 0
+                stored, calls = 0, 0
         else:
             if o == "a":
-                stored = min(stored + 1, win); windowed_call = True
+                stored = min(stored + 1, win); windowed_call = True; calls += 1
             elif o.startswith("s:") or o in ("d", "i"):
                 w = (int(o[2:]) & 0xFFFFFFFF) if o.startswith("s:") else (win - 1 if o == "d" else win + 1)
                 wins.add(w if w < 1000 else "big")
@@ -339,13 +405,15 @@ def features(c):
                         shrunk = True
                     stored, win = min(stored, nw), nw
             elif o == "c":
-                stored = 0
+                stored, calls = 0, 0
         mx = max(mx, stored)
-    return used, wins, shrunk, mx, windowed_call
+        if stored != min(calls, win):
+            count_differs = True
+    return used, wins, shrunk, mx, windowed_call, count_differs
 
 
 def nontrivial(c):
-    used, wins, shrunk, mx, windowed_call = features(c)
+    used, wins, shrunk, mx, windowed_call, _ = features(c)
     if not (windowed_call or shrunk):
         return None
     return (c.kind, c.meta.get("lin", c.meta.get("d")), c.meta.get("circ", "-"), tuple(sorted(used)), tuple(sorted(map(str, wins))), shrunk, mx)
@@ -382,8 +450,17 @@ def compare(c, impl, model):
                 diffs.append("%s: shape impl=%s model=%s" % (nm, a.shape, b.shape)); continue
             if a.size == 0:
                 continue
+            if nm.startswith("est") and o == "e5" and model.has("spec_mapvalues%d" % k):
+                # C17_map_score_meaning on doubles: coded log-score = log((lik+eps) * sum_j (T_ij+eps) w_j)
+                sc = map_scores(colvec(c, "PW%d" % k), colvec(c, "L%d" % k), opmat(c, "T%d" % k).reshape(colvec(c, "L%d" % k).size, colvec(c, "PW%d" % k).size))
+                mv = np.asarray(model.get("spec_mapvalues%d" % k), float).reshape(-1)
+                good = sc > 1e-290
+                if mv.shape != sc.shape or not caseio.close(mv[good], np.log(sc[good]), 1e-9, 0):
+                    diffs.append("spec_mapvalues%d: coded score differs from log of the product form" % k)
             if nm.startswith("est") and impl.get("ret%d" % k) == 0:
                 continue    # no estimate available: the content of the returned vector is not specified
+            if nm.startswith("est") and c.meta.get("tag") == "tie":
+                continue    # exact ties: any maximiser is right; decided by the relational oracle, not by index
             if nm.startswith(("smw", "wmw", "emw")):
                 if not caseio.close(a, b, 1e-12, 1e-12):
                     diffs.append("%s: max|impl-model|=%.3g" % (nm, caseio.maxdiff(a, b)))
@@ -496,8 +573,8 @@ def oracle(c, impl, model):
                     bad("windowed:history-empty", "no estimate stored by a windowed extract", k)
                 elif st == "mean":
                     ok, sk, worst = vec_close(target, base, lin, bres, scale)
-                    if not ok:
-                        bad("mean:%s" % ("linear-or-circular-rows"), "base estimate differs from the weighted (circular) mean by %.3g" % worst, k)
+                    if ok is not True:
+                        bad("mean:%s-rows" % ok, "base estimate differs from the weighted %s mean by %.3g" % ("arithmetic" if ok == "linear" else "circular", worst), k)
                     base = target
                 else:
                     idx = _col_index(P, target)
@@ -545,8 +622,8 @@ def oracle(c, impl, model):
                             spec, sres = wmean(nhist, ww, lin, circ)
                             hscale = max(1.0, float(np.max(np.abs(nhist[:lin]))) if lin else 1.0)
                             ok, sk, worst = vec_close(est, spec, lin, sres, hscale)
-                            if not ok:
-                                bad("windowed-not-convex-combination:%s:%s" % (var, phase), "method %s, %d stored (window %d): estimate differs from the %s average of the stored estimates by %.3g" % (meth, n, win, nm, worst), k)
+                            if ok is not True:
+                                bad("windowed-not-convex-combination:%s:%s:%s-rows" % (var, phase, ok), "method %s, %d stored (window %d): estimate differs from the %s average of the stored estimates by %.3g" % (meth, n, win, nm, worst), k)
         # post-state as observed
         win, hist = nwin, nhist
         if est_kind and impl.has("meth%d" % k):
@@ -562,21 +639,26 @@ def on_crash(c, info, model):
     import re
     es = re.findall(r"entry=(\S+)", info.get("stderr", ""))
     entry = es[-1] if es else "unknown"
-    used, wins, shrunk, mx, _ = features(c)
+    used, wins, shrunk, mx, _, _ = features(c)
     return [("C17:%s:%s" % (info["kind"], entry),
              "implementation ended abnormally (%s, rc=%s) in %s; ops: %s; stderr tail: %s"
              % (info["kind"], info["rc"], entry, " ".join(ops_of(c))[:300], info.get("stderr", "")[-300:].replace("\n", " | ")))]
 
 
 def histogram(cases):
-    h = {"kind": {}, "tag": {}, "ops": {}, "max_stored": {}, "shrunk_nonempty": 0, "state_shape": {}}
+    h = {"kind": {}, "tag": {}, "ops": {}, "max_stored": {}, "shrunk_nonempty": 0, "state_shape": {},
+         "near_boundary_skipped": NEAR_BOUNDARY_SKIPPED,
+         # informational: sequences on which the literal count min(calls since clear, window) is not the stored count
+         # (always after a window change, see C17_min_calls_window_refuted); the exact count is what the oracle checks
+         "stored_differs_from_min_calls_window": 0}
     for c in cases:
         h["kind"][c.kind] = h["kind"].get(c.kind, 0) + 1
         h["tag"][c.meta.get("tag", "")] = h["tag"].get(c.meta.get("tag", ""), 0) + 1
         for o in ops_of(c):
             key = o.split(":")[0]
             h["ops"][key] = h["ops"].get(key, 0) + 1
-        used, wins, shrunk, mx, _ = features(c)
+        used, wins, shrunk, mx, _, cd = features(c)
+        h["stored_differs_from_min_calls_window"] += 1 if cd else 0
         b = "0" if mx == 0 else "1-4" if mx < 5 else "5-28" if mx < 29 else "29-30"
         h["max_stored"][b] = h["max_stored"].get(b, 0) + 1
         h["shrunk_nonempty"] += 1 if shrunk else 0
